@@ -564,7 +564,9 @@ def jobs_C13(tier, seed):
             x = [T, 1e-4, 1.0] + [1.0] * n
             jobs.append(('virial%d/%s' % (order, name), {'job': 'virial', 'model': spec, 'molefracs': xf, 'order': order, 'x': x},
                          {'scale': False, 'fixed': {'1': 0.0}, 'budget_s': 200 if tier == 'quick' else 1200, 'soft': name.endswith('~') or order == 3,
-                          'native_only': tier == 'quick' and name in ('saftvrmie', 'saftvrqmie')}))
+                          # SAFT-VR(Q) Mie: the relation is outside the prover's reach (scope file) and carries recorded findings:
+                          # only the native zero-density vs finite-density comparison is made, in both tiers
+                          'native_only': name.startswith('saftvrmie') or name.startswith('saftvrqmie')}))
     return jobs
 
 
